@@ -3,7 +3,7 @@ use crate::common::*;
 use crate::refdual::*;
 use crate::spec::*;
 use num_traits::{One, Pow, Signed, Zero};
-use rateslib::dual::{set_order, set_order_clone, ADOrder, Dual, Dual2, MathFuncs, Number, Vars};
+use rateslib::dual::{set_order, set_order_clone, ADOrder, Dual, Dual2, Gradient1, Gradient2, MathFuncs, Number, Vars};
 use serde::{Deserialize, Serialize};
 use serde_json::json;
 
@@ -15,7 +15,14 @@ pub enum Case {
     Binary { a: NumSpec, b: NumSpec, ka: u8, kb: u8 },
     /// unary operators / functions of the container
     Unary { x: NumSpec, kind: u8 },
+    /// history: a sequence of float raisings (request list index, target order), EVERY earlier result kept
+    /// alive, each result judged on its own (distinct requested names in first-appearance order, unit
+    /// gradient, zero Hessian, value unchanged)
+    RaiseHistory { steps: Vec<(u8, u8)>, clone_form: bool },
 }
+
+/// request lists of the raising history, over the names c, d (index 2, 3), with repeated names
+const RAISE_REQ: [&[usize]; 7] = [&[2], &[2, 3], &[3, 2], &[2, 2], &[3, 3, 2], &[2, 3, 2], &[]];
 
 fn uni() -> Vec<String> {
     universe(4) // a b c d ; "c","d" are used as requested tag names
@@ -39,6 +46,10 @@ fn specs(v: f64, salt: usize) -> Vec<NumSpec> {
             g: vec![gen_val(salt + 1), gen_val(salt + 2)],
             h: vec![gen_val(salt + 4), gen_val(salt + 5), gen_val(salt + 5), gen_val(salt + 6)],
         },
+        // zero gradient with a non-zero Hessian (a stationary point), and names carried with all-zero content
+        NumSpec { v, names: vec![0], g: vec![0.0], h: vec![gen_val(salt + 2)] },
+        NumSpec { v, names: vec![0, 1], g: vec![0.0, 0.0], h: vec![0.0, gen_val(salt + 1), gen_val(salt + 1), 0.0] },
+        NumSpec { v, names: vec![1], g: vec![0.0], h: vec![0.0] },
     ]
 }
 
@@ -71,6 +82,19 @@ fn cases(tier: Tier) -> Vec<Case> {
                         continue;
                     }
                     out.push(Case::Binary { a: a.clone(), b: b.clone(), ka, kb });
+                }
+            }
+        }
+    }
+    // raising histories: every sequence of length 1..3 over 7 request lists x 2 target orders, both forms
+    let alphabet: Vec<(u8, u8)> = (0..RAISE_REQ.len() as u8).flat_map(|r| [(r, 1u8), (r, 2u8)]).collect();
+    for clone_form in [false, true] {
+        for a in alphabet.iter() {
+            out.push(Case::RaiseHistory { steps: vec![*a], clone_form });
+            for b in alphabet.iter() {
+                out.push(Case::RaiseHistory { steps: vec![*a, *b], clone_form });
+                for c in alphabet.iter() {
+                    out.push(Case::RaiseHistory { steps: vec![*a, *b, *c], clone_form });
                 }
             }
         }
@@ -422,6 +446,31 @@ pub fn check(case: &Case, idx: u64, acc: &mut Acc) {
                     acc.violate(&format!("cmp/{}{}", ka, kb), idx, cj(), json!(format!("{:?}", a.v.partial_cmp(&b.v))), json!(format!("{:?}", c)));
                 }
             }
+            // Number == f64 and f64 == Number agree with the contained comparison
+            if *kb == 0 {
+                acc.eval();
+                let want = match ka {
+                    0 => a.v == b.v,
+                    1 => a.dual(&u) == b.v,
+                    _ => a.dual2(&u) == b.v,
+                };
+                let got = guarded(|| na == b.v);
+                if got != Ok(want) {
+                    acc.violate(&format!("eq-f64/N{}-f", ka), idx, cj(), json!(want), json!(format!("{:?}", got)));
+                }
+            }
+            if *ka == 0 {
+                acc.eval();
+                let want = match kb {
+                    0 => a.v == b.v,
+                    1 => a.v == b.dual(&u),
+                    _ => a.v == b.dual2(&u),
+                };
+                let got = guarded(|| a.v == nb);
+                if got != Ok(want) {
+                    acc.violate(&format!("eq-f64/f-N{}", kb), idx, cj(), json!(want), json!(format!("{:?}", got)));
+                }
+            }
             // abs_sub
             acc.eval();
             let s = guarded(|| na.abs_sub(&nb));
@@ -460,6 +509,49 @@ pub fn check(case: &Case, idx: u64, acc: &mut Acc) {
                 }
             }
             if idx % 577 == 0 {
+                acc.sample(cj);
+            }
+        }
+        Case::RaiseHistory { steps, clone_form } => {
+            let mut alive: Vec<Number> = vec![];
+            acc.nontrivial();
+            for (si, (ri, target)) in steps.iter().enumerate() {
+                acc.eval();
+                let req: Vec<String> = RAISE_REQ[*ri as usize].iter().map(|i| u[*i].clone()).collect();
+                let mut distinct: Vec<String> = vec![];
+                for r in req.iter() {
+                    if !distinct.contains(r) {
+                        distinct.push(r.clone());
+                    }
+                }
+                let v = 1.25 + si as f64;
+                let got = if *clone_form { set_order_clone(&Number::F64(v), ad(*target), req.clone()) } else { set_order(Number::F64(v), ad(*target), req.clone()) };
+                let ok = match (&got, target) {
+                    (Number::Dual(d), 1) => d.real().to_bits() == v.to_bits() && d.vars().iter().cloned().collect::<Vec<_>>() == distinct && d.dual().iter().all(|g| *g == 1.0) && d.dual().len() == distinct.len(),
+                    (Number::Dual2(d), 2) => {
+                        d.real().to_bits() == v.to_bits()
+                            && d.vars().iter().cloned().collect::<Vec<_>>() == distinct
+                            && d.dual().iter().all(|g| *g == 1.0)
+                            && d.dual().len() == distinct.len()
+                            && d.dual2().shape() == [distinct.len(), distinct.len()]
+                            && d.dual2().iter().all(|h| *h == 0.0)
+                    }
+                    _ => false,
+                };
+                acc.outcome(&(kind_of(&got), distinct.len(), *target));
+                if !ok {
+                    acc.violate("order/raise-history", idx, cj(), json!({"step": si, "request": req, "want_names": distinct}), json!(format!("{:?}", got)));
+                    break;
+                }
+                alive.push(got);
+            }
+            // the results kept alive are unchanged at the end
+            for (si, n) in alive.iter().enumerate() {
+                if value_of(n) != 1.25 + si as f64 {
+                    acc.violate("order/raise-history/earlier-result-changed", idx, cj(), json!(1.25 + si as f64), json!(format!("{:?}", n)));
+                }
+            }
+            if idx % 211 == 0 {
                 acc.sample(cj);
             }
         }
@@ -531,11 +623,11 @@ pub fn run(ctx: &Ctx, replay_file: Option<String>) -> ! {
         machinery_fail("vacuous: no first/second-order mixing arm was reached");
     }
     let meta = Meta::exploration(
-        "numbers = signed value table x {no names, one name, two names stored backwards with a Hessian}; all 3x3 \
+        "numbers = signed value table x {no names, one name, two names stored backwards with a Hessian, zero gradient with non-zero Hessian (one and two names), a name with all-zero content}; all 3x3 \
          (kind, target-order) cells of set_order / set_order_clone with tag lists of length 0-2, every From conversion \
          (owned and borrowed) between f64, Dual, Dual2 and Number; every binary operator of the container (+ - * / %, \
          ==, partial_cmp, abs_sub, Sum; borrowed and owned forms; Number-f64 and f64-Number forms) on all 3x3 kind \
-         pairings of every ordered pair of numbers; every unary operator/function. Oracle: the reference content by \
+         pairings of every ordered pair of numbers; every unary operator/function; == between the container and a bare float in both orders; EVERY sequence of 1..3 float raisings over 7 request lists (repeated names included) x 2 target orders with all earlier results kept alive. Oracle: the reference content by \
          name for order changes; for arithmetic, bit-exact agreement (kind, value, every derivative by name) with the \
          same operator applied to the contained types; the two Dual/Dual2 arms must not return a value. Non-trivial: \
          order changes between different kinds, pairings of different kinds, unary ops on dual kinds.",
